@@ -26,7 +26,12 @@ Lvl level(unsigned kind) {
     default: return {{0x9f, 0x80}, {0xff}};            // indefinite array: empty array then child
   }
 }
+// leaf kinds 6 and 7 carry a payload that dwarfs any reasonable stack frame (a definite byte string / a chunk of 96 KiB + a bit): native stack
+// has to follow the nesting depth, not the size of what is nested. They are calibrated as their small counterparts (kinds 0 and 3).
+static void big_payload(std::vector<uint8_t>& out, size_t n) { out.push_back(0x5a); for (int i = 3; i >= 0; i--) out.push_back((uint8_t)(n >> (8 * i))); for (size_t i = 0; i < n; i++) out.push_back((uint8_t)(i * 31)); }
 void leaf(unsigned kind, std::vector<uint8_t>& out, unsigned* levels) {
+  if (kind == 6) { big_payload(out, 98304 + 17); *levels = 0; return; }
+  if (kind == 7) { out.push_back(0x5f); big_payload(out, 98304 + 5); out.push_back(0xff); *levels = 1; return; }
   switch (kind % 6) {
     case 0: out.push_back(0x00); *levels = 0; break;
     case 1: out.push_back(0x80); *levels = 0; break;                                  // empty definite array: opens no level
@@ -37,7 +42,7 @@ void leaf(unsigned kind, std::vector<uint8_t>& out, unsigned* levels) {
   }
 }
 }  // namespace
-unsigned nest_leaf_levels(unsigned leaf_kind) { return (leaf_kind % 6) >= 3 ? 1 : 0; }
+unsigned nest_leaf_levels(unsigned leaf_kind) { if (leaf_kind == 6) return 0; if (leaf_kind == 7) return 1; return (leaf_kind % 6) >= 3 ? 1 : 0; }
 void nest_chain(const std::vector<uint64_t>& kinds, size_t depth, unsigned leaf_kind, std::vector<uint8_t>& out, unsigned* total_levels) {
   std::vector<uint8_t> tail;
   for (size_t i = 0; i < depth; i++) { Lvl l = level((unsigned)kinds[i % kinds.size()]); out.insert(out.end(), l.pre.begin(), l.pre.end()); }
@@ -66,8 +71,8 @@ J gen_nest(const std::string& prop, uint64_t run_seed, const std::string& tier) 
   unsigned k0 = (unsigned)g.below(12);
   for (unsigned i = 0; i < nk; i++) kinds.push(uniform ? k0 : g.below(12));
   plan.set("chain", kinds);
-  unsigned lk = (unsigned)g.below(6); plan.set("leaf", lk);
-  unsigned leaf_levels = (lk % 6) >= 3 ? 1 : 0;
+  unsigned lk = (unsigned)g.below(6); if (g.chance(1, 8)) lk = 6 + (unsigned)g.below(2); plan.set("leaf", lk);
+  unsigned leaf_levels = nest_leaf_levels(lk);
   // total nesting relative to the limit: L-1, L, L+1, 4L, and a few others
   uint64_t want;
   switch (g.below(8)) { case 0: want = L > 1 ? L - 1 : 1; break; case 1: case 2: want = L; break; case 3: case 4: want = (uint64_t)L + 1; break; case 5: want = 4ull * L; break; case 6: want = g.range(1, 2ull * L + 2); break; default: want = (uint64_t)L + g.below(4); }
@@ -114,7 +119,8 @@ void exec_nest(const J& plan) {
   // --- calibration: the same kinds nested exactly as deep as the limit allows, on a generous stack: how much native stack does the accepted pipeline use on this build?
   unsigned leaf_levels = levels - (unsigned)depth;
   size_t cal_depth = L > leaf_levels ? L - leaf_levels : 0;
-  std::vector<uint8_t> cal; unsigned cal_levels = 0; nest_chain(kinds, cal_depth, leaf_kind, cal, &cal_levels);
+  unsigned cal_leaf = leaf_kind == 6 ? 0 : leaf_kind == 7 ? 3 : leaf_kind;      // the budget is what the same nesting costs with a small payload
+  std::vector<uint8_t> cal; unsigned cal_levels = 0; nest_chain(kinds, cal_depth, cal_leaf, cal, &cal_levels);
   size_t used_max = 0;
   LoadOpts co; co.L = L; co.deep_post = true; co.where = "calibration chain at depth L";
   co.runner = [&](const std::function<void()>& f) { size_t used = 0; prot_set_ctx("calibration pipeline at depth L (generous stack)"); sched_run_on_stack(((size_t)4 << 20) + (size_t)65536 * L, f, &used); if (used > used_max) used_max = used; };
@@ -127,7 +133,7 @@ void exec_nest(const J& plan) {
   stat_max("max_stack_used_at_depth_L", used_max);
   // proportional to L: the same kinds nested L/2 deep must need about half of it (a per-level cost that itself grows with depth shows here)
   if (L >= 64) {
-    std::vector<uint8_t> half; unsigned hl = 0; nest_chain(kinds, cal_depth / 2, leaf_kind, half, &hl);
+    std::vector<uint8_t> half; unsigned hl = 0; nest_chain(kinds, cal_depth / 2, cal_leaf, half, &hl);
     size_t used_half = 0, keep = used_max; used_max = 0;
     LoadOutcome ch = checked_load(half.data(), half.size(), co, nullptr);
     used_half = used_max; used_max = keep;
